@@ -383,24 +383,27 @@ def collectTable {κ : Type} [BEq κ] (rows : List (κ × α)) : List (κ × α)
     if acc.any (fun p => p.1 == r.1) then acc.map (fun p => if p.1 == r.1 then r else p) else acc ++ [r]) []
 
 mutual
-/-- `NetworkCostRateBuilder::build`; `none` = `CostModelError::BuildError` -/
-def NetworkCostRateBuilder.build : NetworkCostRateBuilder α → Option (NetworkCostRate α)
+/-- `NetworkCostRateBuilder::build`; `none` = `CostModelError::BuildError`: a file that cannot be read,
+a row that does not decode, or a cost that is not finite (`finite`: the csv reader parses `NaN` and
+`inf` as numbers) -/
+def NetworkCostRateBuilder.build (finite : α → Bool) : NetworkCostRateBuilder α → Option (NetworkCostRate α)
   | .edgeLookup f =>
     match readCsv f with
-    | .ok rows => some (.edgeLookup (collectTable rows))
+    | .ok rows => if rows.all (fun r => finite r.2) then some (.edgeLookup (collectTable rows)) else none
     | .error _ => none
   | .edgeEdgeLookup f =>
     match readCsv f with
-    | .ok rows => some (.edgeEdgeLookup (collectTable rows))
+    | .ok rows => if rows.all (fun r => finite r.2) then some (.edgeEdgeLookup (collectTable rows)) else none
     | .error _ => none
-  | .combined bs => (NetworkCostRateBuilder.buildList bs).map .combined
-def NetworkCostRateBuilder.buildList : List (NetworkCostRateBuilder α) → Option (List (NetworkCostRate α))
+  | .combined bs => (NetworkCostRateBuilder.buildList finite bs).map .combined
+def NetworkCostRateBuilder.buildList (finite : α → Bool) :
+    List (NetworkCostRateBuilder α) → Option (List (NetworkCostRate α))
   | [] => some []
   | b :: r =>
-    match b.build with
+    match b.build finite with
     | none => none
     | some x =>
-      match NetworkCostRateBuilder.buildList r with
+      match NetworkCostRateBuilder.buildList finite r with
       | none => none
       | some l => some (x :: l)
 end
